@@ -85,34 +85,23 @@ theorem plan_node_deps (params : List (String × Val)) (targets : List String) (
   obtain ⟨f, hf, hname, hdeps⟩ := mi_planWith_find hp ht
   exact ⟨f, (List.mem_filter.1 hf).1, hname, hdeps⟩
 
-/-- **A successful plan is acyclic.** There is a topological order of the planned system: a
-duplicate-free list that contains exactly the nodes of `p.sys`, in which every dependency of a
-node that is itself a node appears EARLIER than the node. (The order is the one found by the cycle
-check of `dags.create_dag` — Kahn's algorithm `topoOrder` on the graph of the necessary functions,
-which only ever appends a node all of whose predecessors are done, and which has processed every
-node because `hasCycle = false` — restricted to the nodes of the system.)
+/-- **A successful plan is acyclic, and `p.order` is a topological order of it.** The execution
+order `p.order` (the lexicographical topological sort of the graph of the processed functions,
+restricted to the function nodes) lists every node of the planned system `p.sys` exactly once —
+and nothing else —, and every dependency of a node that is itself a node appears EARLIER in
+`p.order` than the node. So the concatenated function executes each node after its inputs.
 
-[Partial with respect to the requested statement, which is about the field `p.order`: `p.order` is
-computed by a SECOND run of `topoOrder`, on the graph of the processed functions; that this second
-run is complete needs "Kahn's algorithm never gets stuck on a graph with a rank function", which is
-not proved here.] -/
-theorem plan_acyclic_partial (params : List (String × Val)) (targets : List String) (pr : Prep)
+(Proof: Kahn's algorithm `topoLoop` only ever appends a node all of whose predecessors are done
+(`mi_topoLoop_good`); the cycle check `hasCycle = false` on the graph of the necessary functions
+gives a rank that decreases along every edge; the graph of the PROCESSED functions — fewer nodes,
+fewer edges — inherits this rank, hence passes the cycle check too (`acyclic_of_rank` of
+`Lemmas/SimKahn.lean`), hence its `topoOrder` visits every node.) -/
+theorem plan_acyclic (params : List (String × Val)) (targets : List String) (pr : Prep)
     (p : Plan) (hnd : (pr.fns.map (·.name)).Nodup) (h : plan params targets pr = .ok p) :
-    ∃ ord : List String, ord.Nodup ∧ (∀ n, n ∈ ord ↔ (find? p.sys n).isSome = true) ∧
+    p.order.Nodup ∧ (∀ n, n ∈ p.order ↔ (find? p.sys n).isSome = true) ∧
       ∀ n node, find? p.sys n = some node → ∀ d ∈ node.deps, (find? p.sys d).isSome = true →
-        ∃ pre post, ord = pre ++ n :: post ∧ d ∈ pre := by
-  obtain ⟨L, g, hgood, hgnd, hmem, hg⟩ := mi_plan_good hnd h
-  refine ⟨L.reverse, List.nodup_reverse.2 (mi_good_nodup hgood), ?_, ?_⟩
-  · intro n
-    rw [List.mem_reverse]
-    exact hmem n
-  · intro n node hn d hd hs
-    have hnL : n ∈ L := (hmem n).2 (by unfold find? at hn; rw [hn]; rfl)
-    obtain ⟨ds, hds, hall⟩ := hg n node hn
-    obtain ⟨l1, rest, hL, hrest⟩ := mi_good_split hgnd hgood hnL
-    refine ⟨rest.reverse, l1.reverse, ?_, ?_⟩
-    · rw [hL]; simp
-    · exact List.mem_reverse.2 (hrest ds hds d (hall d hd hs))
+        ∃ pre post, p.order = pre ++ n :: post ∧ d ∈ pre :=
+  mi_plan_order hnd h
 
 /-- **The fuel suffices.** For every name `t` there is a depth `k ≤ p.sys.length` such that the
 evaluation of `t` in the planned system gives the same RESULT — value or error — for every fuel
@@ -200,8 +189,7 @@ example : (match (prepare (sys.rules.map (ruleFn true)) [] [] (sys.data.take 2) 
       plan sys.params ["b"] pr) with
     | .error .valueError => true | _ => false) = true := by decide +kernel
 
-/-- a cycle makes `plan` fail (hypothesis `hasCycle = false` of `plan_acyclic_partial` is a real
-check) -/
+/-- a cycle makes `plan` fail (the check `hasCycle = false` behind `plan_acyclic` is a real check) -/
 def cyc : List Rule :=
   [{ name := "c1", ret := some .float, fn := { name := "c1", args := ["c2"], body := [.ret (.name "c2")] } },
    { name := "c2", ret := some .float, fn := { name := "c2", args := ["c1"], body := [.ret (.name "c1")] } }]
